@@ -88,9 +88,11 @@ def plan(tier, seed):
     shards = []
     # the small namespace vfgen.beta carries the bulk of the fault enumeration (its source fallback compiles in a fraction of a
     # second); the rich namespaces carry the transparency check plus a slice of the faults (their fallback compile takes seconds)
-    for ns, parts, take in (("vfgen.beta", 4, 4), ("vfgen.alpha", 12 if q else 8, 4 if q else 8), ("vfgen.gamma", 12 if q else 8, 4 if q else 8)):
+    for ns, parts, take in (("vfgen.beta", 4, 4), ("vfgen.alpha", 12 if q else 8, 3 if q else 8), ("vfgen.gamma", 12 if q else 8, 3 if q else 8)):
         for p in range(take):
-            shards.append({"kind": "faults", "ns": ns, "part": p, "parts": parts, "trunc_samples": (10 if ns == "vfgen.beta" else 4) if q else 300, "readers": [2, 3] if q else [2, 3, 4, 5, 6, 7]})
+            # (quick: each rich namespace is read back under one other hash seed per shard, alternating 2 / 3)
+            shards.append({"kind": "faults", "ns": ns, "part": p, "parts": parts, "trunc_samples": (10 if ns == "vfgen.beta" else 4) if q else 300,
+                           "readers": ([2, 3] if ns == "vfgen.beta" else [2 + p % 2]) if q else [2, 3, 4, 5, 6, 7]})
     bundled = ["basilisp.string", "basilisp.set", "basilisp.walk"] if q else ["basilisp.string", "basilisp.set", "basilisp.walk", "basilisp.edn", "basilisp.json", "basilisp.data", "basilisp.pprint"]
     for i, nsname in enumerate(bundled):
         # one shard per bundled namespace; quick runs a third of the fault list each (rotating), thorough all of it
@@ -118,6 +120,13 @@ def child_main(cfg):
     import re
 
     sys.path.insert(0, cfg["path"])
+    # a basilispbootstrap .pth file in site-packages (the repository's own CLI tests install one for a moment) initialises the runtime
+    # at interpreter start-up, before the loader paths are wrapped: such a child can observe nothing
+    preinitialized = "basilisp.core" in sys.modules
+    if preinitialized:
+        sys.stdout.write("\n@@C14@@" + json.dumps({"ok": False, "exc": "PreInitialized", "msg": "runtime initialised at interpreter start-up by the environment"}) + "\n")
+        sys.stdout.flush()
+        os._exit(0)
     from basilisp import main as bmain
     from basilisp import importer
     from basilisp.lang import compiler, reader, runtime
@@ -271,6 +280,15 @@ def _pdeath():
 
 
 def run_child(cfg, hashseed, cache_prefix, nocache=False, timeout=240):
+    for attempt in range(6):
+        res = _run_child_once(cfg, hashseed, cache_prefix, nocache, timeout)
+        if res.get("exc") != "PreInitialized":
+            return res
+        time.sleep(1.5)  # the interfering .pth file is transient
+    return res
+
+
+def _run_child_once(cfg, hashseed, cache_prefix, nocache=False, timeout=240):
     env = dict(os.environ)
     env["PYTHONHASHSEED"] = str(hashseed)
     env["PYTHONPYCACHEPREFIX"] = cache_prefix
@@ -350,6 +368,9 @@ def _worker(spec, out, rnd, base):
 
     def compare(tag, got, want, case, ns):
         """snapshot equality; returns True if equal"""
+        if got.get("exc") == "PreInitialized":
+            out.incon("child interpreters were initialised at start-up by a .pth file of the environment; the loader could not be observed", case)
+            return False
         if not got.get("ok"):
             out.violation(f"C14/{tag}/import-failed-{got.get('exc')}", {"ns": ns, "msg": got.get("msg", "")[:300], "case": case.get("fault")}, case)
             return False
@@ -390,6 +411,9 @@ def _worker(spec, out, rnd, base):
             # writer: hash seed 1, no cache for the namespace yet -> compiles it from source and writes the cache
             wres = run_child(cfg, 1, wprefix)
             out.ev(("writer", ns))
+            if wres.get("exc") == "PreInitialized":
+                out.incon("child interpreters were initialised at start-up by a .pth file of the environment; the loader could not be observed", {"kind": kind, "ns": ns, "fault": "writer"})
+                continue
             if not wres.get("ok"):
                 out.violation(f"C14/writer/import-failed-{wres.get('exc')}", {"ns": ns, "msg": wres.get("msg", "")[:300]}, {"kind": kind, "ns": ns, "fault": "writer"})
                 continue
@@ -402,6 +426,9 @@ def _worker(spec, out, rnd, base):
             for r in spec["readers"]:
                 # reference: load from source under the reader's seed
                 ref = source_load(cfg, r, "ref-%s-%s" % (ns, r), all_sources)
+                if ref.get("exc") == "PreInitialized":
+                    out.incon("child interpreters were initialised at start-up by a .pth file of the environment; the loader could not be observed", {"kind": kind, "ns": ns, "fault": "source", "reader": r})
+                    continue
                 if not ref.get("ok"):
                     out.violation(f"C14/source-load/import-failed-{ref.get('exc')}", {"ns": ns, "msg": ref.get("msg", "")[:300]}, {"kind": kind, "ns": ns, "fault": "source", "reader": r})
                     continue
@@ -493,7 +520,7 @@ def _worker(spec, out, rnd, base):
                         if not compare("fallback", got, want, case, ns):
                             continue
                         if (ns + ":source") not in mine:
-                            out.violation(f"C14/fallback/source-path-not-taken/{fk}", {"ns": ns, "fault": fault, "path": ev.get("path")}, case)
+                            out.violation(f"C14/fallback/source-path-not-taken/{fk}", {"ns": ns, "fault": fault, "path": ev.get("path"), "events": ev, "cache_after": got.get("cache_after"), "installed_bytes": len(data)}, case)
                             continue
                         ca = got.get("cache_after", {})
                         if not (ca.get("exists") and ca.get("header_ok") and ca.get("payload_ok")):
